@@ -49,6 +49,9 @@ pub struct Setup {
     pub tx: Transaction,
     pub prevouts: Vec<TxOut>,
     pub prev_txs: Vec<Option<Transaction>>,
+    /// how a segwit input describes the coin it spends: 0 = witness_utxo, 1 = non_witness_utxo
+    /// only, 2 = both (all three are allowed by BIP-174)
+    pub utxo_style: Vec<u8>,
 }
 
 pub fn build_setup(rng: &mut Rng, world: &World, tier: Tier) -> Option<Setup> {
@@ -130,7 +133,8 @@ pub fn build_setup(rng: &mut Rng, world: &World, tier: Tier) -> Option<Setup> {
         input: tx_in,
         output: vec![TxOut { value: Amount::from_sat(50_000), script_pubkey: ScriptBuf::from_bytes(vec![0x6a, 0x01, 0x14]) }],
     };
-    Some(Setup { inputs, tx, prevouts, prev_txs })
+    let utxo_style: Vec<u8> = (0..inputs.len()).map(|_| match rng.below(8) { 0 => 1, 1 => 2, _ => 0 }).collect();
+    Some(Setup { inputs, tx, prevouts, prev_txs, utxo_style })
 }
 
 pub fn fresh_psbt(s: &Setup) -> Psbt {
@@ -139,7 +143,12 @@ pub fn fresh_psbt(s: &Setup) -> Psbt {
         if ip.legacy {
             psbt.inputs[i].non_witness_utxo = s.prev_txs[i].clone();
         } else {
-            psbt.inputs[i].witness_utxo = Some(s.prevouts[i].clone());
+            if s.utxo_style[i] != 1 {
+                psbt.inputs[i].witness_utxo = Some(s.prevouts[i].clone());
+            }
+            if s.utxo_style[i] != 0 {
+                psbt.inputs[i].non_witness_utxo = s.prev_txs[i].clone();
+            }
         }
     }
     psbt
